@@ -52,10 +52,10 @@ def check(ctx: Ctx) -> None:
                 ctx.ob("C06.neutrality", f"{op}:{a},{b}", (tab[(a, b)] == N) == (a == N and b == N),
                        f"{a} {op} {b} = {tab[(a, b)]}: NEUTRAL must result exactly from two NEUTRAL operands",
                        file="src/ahbicht/models/condition_nodes.py")
-    report_sweep(ctx, ("C06.tree",), FILE)
+    ctx.soft(lambda: report_sweep(ctx, ("C06.tree",), FILE))
     from .. import ahbsweep
 
-    ahbsweep.report(ctx, ("C06.noshort",), "src/ahbicht/expressions/ahb_expression_evaluation.py")
+    ctx.soft(lambda: ahbsweep.report(ctx, ("C06.noshort",), "src/ahbicht/expressions/ahb_expression_evaluation.py"))
     # the validity check itself
     bound = 1 if ctx.tier == "quick" else 2
     trees = enumerate_trees(bound, LEAVES_QUICK)
